@@ -357,10 +357,17 @@ static void do_P (char *line) {
   /* registers the "generator" added must be gone from the tables: declaring them again must work */
   int readd = VARR_LENGTH (MIR_var_t, func->vars) == nvars0;
   for (int k = 0; k < added && readd; k++) {
+    /* ... with another type than the generator used, and the number must lead back to the new
+       declaration (nothing of the dropped register may be left in the number -> descriptor table) */
+    MIR_type_t ty = k % 2 ? MIR_T_D : MIR_T_F;
     err_armed = 1;
-    if (setjmp (err_jmp) == 0)
-      MIR_new_func_reg (ctx, func, MIR_T_I64, added_names[k]);
-    else
+    if (setjmp (err_jmp) == 0) {
+      MIR_reg_t r = MIR_new_func_reg (ctx, func, ty, added_names[k]);
+      const char *nm = MIR_reg_name (ctx, r, func);
+      if (nm == NULL || strcmp (nm, added_names[k]) != 0 || MIR_reg_type (ctx, r, func) != ty
+          || MIR_reg (ctx, added_names[k], func) != r)
+        readd = 0;
+    } else
       readd = 0;
     err_armed = 0;
   }
